@@ -113,6 +113,11 @@ pub fn curated() -> Vec<(&'static str, Spec, bool)> {
     add("la_alt_shared2", true, vec![r(r"[0-9]+(?-u:\b)|[0-9]+\.[0-9]+"), s(" "), r("[a-z]+")]);
     add("la_alt_shared3", true, vec![r("x$|y"), r("[a-z]").prio(1)]);
     add("la_alt_shared4", true, vec![r("(?m:ab$)|ab;|c"), r("[a-c;]").prio(1), t("\n")]);
+    // a skipped match that is a proper prefix of a longer candidate which then fails (the scan has
+    // read past the end of the skip when the skip is taken)
+    add("skip_prefix", true, vec![s("ab"), t("abcd"), t("c"), t("e")]);
+    add("skip_prefix2", true, vec![s("[0-9]+"), r("[0-9]+\\.[0-9]+"), t("."), r("[a-z]+")]);
+    add("skip_prefix3", true, vec![s("--"), t("-->"), t("---x"), t("-"), r("[a-z>]")]);
     // skips recognised by a late-accept state (the skip ends in a look-ahead assertion)
     add("skip_la_eol", true, vec![s("//[^\n]*(?m:$)").greedy(), r("[a-z]+"), t("\n"), t("/")]);
     add("skip_la_end", true, vec![s("#[a-z]*$"), r("[a-z]+"), t("#").prio(1)]);
